@@ -387,12 +387,43 @@ def c15(tier):
     return out
 
 
+LSS_KNOWN = [4, 64, 65, 66, 67, 21, 19, 17, 23, 90, 91, 92, 93, 94, 70, 71, 72, 73, 74, 75, 76]
+
+
+def c18(tier):
+    out = []
+    uw = node_unwind(2)
+    uw.update(lss_unwind())
+    uw.update({'COLssInit': 6, 'COTmrClear': 4, 'COTmrDelete': 6, 'COTmrInsert': 6, 'COTmrRemove': 6, 'COSyncInit': 4, 'COEmcyReset': 6})
+    for mode in (2, 3, 4):
+        if tier == 'quick':
+            css = LSS_KNOWN + ([0, 3, 5, 16, 18, 20, 22, 24, 63, 68, 69, 77, 89, 95, 128, 255] if mode == 2 else [])
+            if mode != 2:
+                css = [4, 67, 75, 17, 19, 23, 21, 94]
+        else:
+            css = list(range(256))
+        for cs in css:
+            for lm in (0, 1):
+                defs = dict(NODE_DEFS)
+                defs.update({'MODE': mode, 'ACT': 0, 'CS': cs, 'LMODE': lm, 'CO_VERIF_SDO_BUF_SEG': 2})
+                out.append(Inst('lss_step_%s_%s_cs%d' % (NMT_MODE[mode], 'conf' if lm else 'wait', cs), 'lss_step.c', defs, unwind=20, unwindset=uw, objbits=10,
+                                harness_only=['MODE', 'ACT', 'CS', 'LMODE'], family='lss_step',
+                                bounds='command specifier %d in LSS %s state; step/pending configuration/flags, identity 1018h:1..4, node id, arguments and dlc symbolic; NMT mode %s' % (
+                                    cs, 'configuration' if lm else 'waiting', NMT_MODE[mode])))
+    defs = dict(NODE_DEFS)
+    defs.update({'MODE': 2, 'ACT': 1, 'CO_VERIF_SDO_BUF_SEG': 2})
+    out.append(Inst('lss_activate_preop', 'lss_step.c', defs, unwind=20, unwindset=uw, objbits=10, harness_only=['MODE', 'ACT', 'CS', 'LMODE'], family='lss_step',
+                    bounds='store/load/reset scenario with symbolic node id and bit-timing index'))
+    return out
+
+
 def c01(tier):
     return sdo_step_insts(tier) + sdo_two_servers(tier)
 
 
 PROPS = {
     'C01': c01,
+    'C18': c18,
     'C15': c15,
     'C09': c09,
     'C04': c04,
